@@ -200,7 +200,7 @@ def sequentialise(case_lines):
                 out.append(json.dumps(e, separators=(",", ":")))
             elif e["e"] == "tick":
                 out.append(json.dumps(dict(e="op", op="tick", k=0, v=0, a=0, d=e["d"], p=0, var=0, kv=[], now=e["now"],
-                                           ret=0, rc=0, rl=[], size=e["size"], empty=e["empty"], cap=e["cap"],
+                                           ret=0, rc=0, rl=[], size=e["size"], size2=e["size2"], empty=e["empty"], cap=e["cap"],
                                            obs=e["obs"], skip=e["skip"]), separators=(",", ":")))
             elif e["e"] == "cs":
                 key = (e["t"], e["call"])
@@ -208,11 +208,11 @@ def sequentialise(case_lines):
                 if r is not None and lin[key] is e:
                     out.append(json.dumps(dict(e="op", op=r["op"], k=r["k"], v=r["v"], a=r["a"], d=r["d"], p=r["p"],
                                                var=r["var"], kv=r["kv"], now=e["now"], ret=r["ret"], rc=r["rc"],
-                                               rl=r["rl"], size=e["size"], empty=e["empty"], cap=e["cap"], obs=e["obs"],
+                                               rl=r["rl"], size=e["size"], size2=e["size2"], empty=e["empty"], cap=e["cap"], obs=e["obs"],
                                                skip=e["skip"]), separators=(",", ":")))
                 else:
                     out.append(json.dumps(dict(e="op", op="obs", k=0, v=0, a=0, d=0, p=0, var=0, kv=[], now=e["now"],
-                                               ret=0, rc=0, rl=[], size=e["size"], empty=e["empty"], cap=e["cap"],
+                                               ret=0, rc=0, rl=[], size=e["size"], size2=e["size2"], empty=e["empty"], cap=e["cap"],
                                                obs=e["obs"], skip=e["skip"]), separators=(",", ":")))
         cands.append(out)
     return cfg, cands, info
